@@ -168,6 +168,9 @@ type Instance struct {
 	// inside its Init / AfterPropertiesSet callback - a dependency cycle can be closed during
 	// initialization, not only during population.
 	InitLookups []string `json:"initLookups,omitempty"`
+	// Prewired: before Run the application itself has already set the instance's
+	// single-valued points whose target is determined to the (raw) target object.
+	Prewired bool `json:"prewired,omitempty"`
 	// Contributed: the instance is not registered with the container; a definition-registry
 	// post-processor contributes its definition (DefinitionRegistry.RegisterMeta) during the
 	// scanning phase. Only for types without points / configuration fields.
